@@ -334,7 +334,7 @@ func applyTreeFault(payload []byte, a, b int) ([]byte, bool) {
 		return payload, false
 	}
 	nv := len(treeSubst)
-	v := abs(b) % (nv + 3)
+	v := abs(b) % (nv + 6)
 	splice := func(off, end int, with []byte) []byte {
 		r := append([]byte{}, payload[:off]...)
 		r = append(r, with...)
@@ -370,10 +370,83 @@ func applyTreeFault(payload []byte, a, b int) ([]byte, bool) {
 		r = append(r, nh...)
 		r = append(r, payload[vEnd:]...)
 		return r, true
-	default: // first key now maps to a copy of the whole map (nesting)
+	case 2: // first key now maps to a copy of the whole map (nesting)
 		r := append([]byte{}, payload[:kEnd]...)
 		r = append(r, payload[h.Off:iend]...)
 		r = append(r, payload[vEnd:]...)
+		return r, true
+	case 3: // same map, indefinite length
+		r := append([]byte{}, payload[:h.Off]...)
+		r = append(r, 0xbf)
+		r = append(r, payload[p:iend]...)
+		r = append(r, 0xff)
+		r = append(r, payload[iend:]...)
+		return r, true
+	case 4: // indefinite length, first pair repeated byte for byte at the end
+		r := append([]byte{}, payload[:h.Off]...)
+		r = append(r, 0xbf)
+		r = append(r, payload[p:iend]...)
+		r = append(r, payload[p:vEnd]...)
+		r = append(r, 0xff)
+		r = append(r, payload[iend:]...)
+		return r, true
+	default: // indefinite length without the break
+		r := append([]byte{}, payload[:h.Off]...)
+		r = append(r, 0xbf)
+		r = append(r, payload[p:]...)
+		return r, true
+	}
+}
+
+// applyManyMembers adds n tiny distinct members to the top-level map of a
+// CBOR item (possibly behind tags) or of a JSON object: a legal message with
+// no hostile length field, just many members.
+func applyManyMembers(msg []byte, n int, isJSON bool) ([]byte, bool) {
+	if n <= 0 {
+		return msg, false
+	}
+	if isJSON {
+		i := bytes.LastIndexByte(msg, '}')
+		if i < 0 {
+			return msg, false
+		}
+		var sb bytes.Buffer
+		sb.Write(msg[:i])
+		hasMembers := bytes.ContainsRune(msg[:i], ':')
+		for k := 0; k < n; k++ {
+			if k > 0 || hasMembers {
+				sb.WriteByte(',')
+			}
+			fmt.Fprintf(&sb, `"k%d":0`, k)
+		}
+		sb.Write(msg[i:])
+		return sb.Bytes(), true
+	}
+	pos := 0
+	for {
+		h, err := readHead(msg, pos)
+		if err != nil {
+			return msg, false
+		}
+		if h.Major == 6 {
+			pos += h.HLen
+			continue
+		}
+		if h.Major != 5 || h.Info == 31 {
+			return msg, false
+		}
+		end, err := walkItem(msg, pos, 0, nil)
+		if err != nil {
+			return msg, false
+		}
+		r := append([]byte{}, msg[:pos]...)
+		r = append(r, encodeHead(5, h.Arg+uint64(n))...)
+		r = append(r, msg[pos+h.HLen:end]...)
+		for k := 0; k < n; k++ {
+			r = append(r, encodeHead(0, uint64(100000+k))...)
+			r = append(r, 0x00)
+		}
+		r = append(r, msg[end:]...)
 		return r, true
 	}
 }
